@@ -149,3 +149,11 @@ extend("C04", "families with 63..66 and 255..258 distinct variables", "Arity and
 extend("C12", "five large texts (300 operands, 257 calls, 130 nesting levels)", "A third model parses, prints, converts and serialises five large texts.")
 extend("C13", "table with 261 operators", "Family n reads binary, unary and constant names that sit behind 257 other operators in the table.")
 extend("C10", "all 23 named helper methods, the constant constructors and the overloaded operators on DeepEx<f64>", "Every named helper of DeepEx<f64> is compared with operate_unary of that name and with the Rust primitive on the operand's value; pi / e / tau / one / zero / from_num; + - * / pow on all ordered pairs of eight deep expressions.")
+extend("C05", "three variables on up to three nesting levels", "A campaign over the leaves x, y, z with unary operators (sizes (3,1), (3,2); thorough (4,1)) reaches nested levels that mention only some of the variables.")
+extend("C09", "variable names whose byte order differs from the alphabetical order", "Four base expressions use upper/lower-case, digit, underscore, padded and Greek names.")
+extend("C10", "listed long accumulating histories (12, thorough 24 applications), every prefix judged", "Next to the exhaustive short histories, 324 listed histories alternate two binary operators (all ordered pairs) with the other operand on the right / left / alternating and a unary operator at every fourth step, in the flat, deep and uncompiled forms.")
+extend("C11", "listed substitution histories on expressions with 16..33 (thorough 15..65) variables", "Base expressions whose variables recur in nested groups; identity, one distinguished variable := every pool entry, all-to-one, each followed by a second substitution.")
+extend("C12", "braced names with leading / trailing blanks", "The base texts contain `{ y}` and `{x }`.")
+extend("C13", "names ending in a digit continued by Greek letters, underscore, digits", "Family o (unary p2, constant c0).")
+extend("C18", "branches with 16..40 (thorough ..70) summands", "Piecewise texts whose longer branch has more operands than one machine word counts, in all five forms.")
+extend("C20", "eval_str over f32 and f64 in one process; sequential histories split into all 25 jobs and the 14 cheapest one step longer", "Jobs evaluate texts whose value depends on the float width through eval_str::<f32> and eval_str::<f64> and compare bit-exactly with native arithmetic.")
